@@ -71,6 +71,8 @@ pub struct BuildOpts {
     pub varlen_monotone: bool,
     /// V9 `count` = number of flowsets even for single-packet calls
     pub count_by_flowsets: bool,
+    /// V9 PROTOCOL bytes are restricted to numbers with a named variant (0..=144, 255)
+    pub proto_named: bool,
 }
 
 impl BuildOpts {
@@ -81,6 +83,7 @@ impl BuildOpts {
         utf8_only: false,
         varlen_monotone: false,
         count_by_flowsets: false,
+        proto_named: false,
     };
     pub const WIDE: BuildOpts = BuildOpts {
         auto_define: true,
@@ -89,6 +92,7 @@ impl BuildOpts {
         utf8_only: false,
         varlen_monotone: false,
         count_by_flowsets: false,
+        proto_named: false,
     };
 }
 
@@ -338,7 +342,10 @@ fn build_sets(
                             let v = gen_value(&dt, l, &mut e, o.utf8_only);
                             enc_varlen(&mut rec, &v, long);
                         } else {
-                            let v = gen_value(&dt, f.len as usize, &mut e, o.utf8_only);
+                            let mut v = gen_value(&dt, f.len as usize, &mut e, o.utf8_only);
+                            if o.proto_named && dt == FieldDataType::ProtocolType && v.len() == 1 && (145..=254).contains(&v[0]) {
+                                v[0] %= 145;
+                            }
                             rec.bytes(&v);
                         }
                     }
@@ -953,6 +960,7 @@ pub const HOSTILE_OPTS: BuildOpts = BuildOpts {
     utf8_only: false,
     varlen_monotone: false,
     count_by_flowsets: false,
+    proto_named: false,
 };
 
 pub fn build_hostile(h: &HostilePlan) -> Case {
@@ -989,6 +997,61 @@ pub fn conformant_case(cfg: StreamCfg, opts: BuildOpts) -> BoxedStrategy<Case> {
     stream(cfg)
         .prop_map(move |p| {
             let b = build(&p, &opts);
+            let mut params = BTreeMap::new();
+            params.insert("built_data_records".to_string(), b.data_records as i64);
+            Case {
+                allowed: vec![crate::engine::DEFAULT_ALLOWED.to_vec()],
+                calls: b.calls,
+                params,
+            }
+        })
+        .boxed()
+}
+
+/// Rewrite a definition so that every value kind re-exports losslessly (C09/C10 strict
+/// mode): durations and MACs become 4-byte counters, signed numbers are 4 bytes wide,
+/// variable-length fields get a fixed width.
+pub fn make_lossless(proto: Proto, d: &mut Def) {
+    for (i, f) in d.fields.iter_mut().enumerate() {
+        if proto == Proto::V9 && d.kind == Kind::Options && i < d.scope_n as usize {
+            continue;
+        }
+        if f.len == VARLEN {
+            f.len = 5;
+        }
+        if f.ent.is_some() {
+            continue;
+        }
+        match dtype(proto, f) {
+            FieldDataType::DurationSeconds
+            | FieldDataType::DurationMillis
+            | FieldDataType::DurationMicros
+            | FieldDataType::DurationNanos
+            | FieldDataType::MacAddr => {
+                f.ie = 1;
+                f.len = 4;
+            }
+            FieldDataType::SignedDataNumber => f.len = 4,
+            _ => {}
+        }
+    }
+}
+
+pub fn conformant_case_lossless(cfg: StreamCfg, opts: BuildOpts) -> BoxedStrategy<Case> {
+    stream(cfg)
+        .prop_map(move |mut p| {
+            for alts in p.pool.v9.iter_mut() {
+                for d in alts.iter_mut() {
+                    make_lossless(Proto::V9, d);
+                }
+            }
+            for alts in p.pool.ipfix.iter_mut() {
+                for d in alts.iter_mut() {
+                    make_lossless(Proto::Ipfix, d);
+                }
+            }
+            let o = BuildOpts { proto_named: true, ..opts };
+            let b = build(&p, &o);
             let mut params = BTreeMap::new();
             params.insert("built_data_records".to_string(), b.data_records as i64);
             Case {
